@@ -101,7 +101,7 @@ PROPS = {
 }
 
 # ---- text for MANIFEST.json ---------------------------------------------------------------------------
-HOOK_COMMITS = ["53105b3"]
+HOOK_COMMITS = ["971dac3"]
 _E1 = "E1 seq"
 _NOTE_MODEL = ("trusted: the reference model in src/model.hpp + src/engine.cpp (written from the property statements), the adapters, "
                "the link-time replaced clock/random_device, g++ sanitizers; bounded: capacity <= 33, universe <= capacity+3, histories <= 120 operations")
